@@ -164,6 +164,9 @@ func runRoute(t *testing.T, c spec.Case, e Em) {
 		e.Note("pair-error", err.Error())
 		return
 	}
+	if p.WrapDispense && pr.plugMux != nil {
+		plugin.VerifSetNextId(pr.plugMux, ^uint32(0)-2)
+	}
 	var inflight, maxPend atomic.Int32
 	var connsMu sync.Mutex
 	type kept struct {
